@@ -456,7 +456,7 @@ Proof.
   intros f. induction f as [name dt nullable IH] using Field_ind'. intros b.
   destruct dt as [| |k|k|k|n|k cf|n cf|fs|en kf vf|key val|ufs]; try (cbn [build]; discriminate).
   - cbn [build]. intros H; injection H as <-. cbn. split; [split; [apply ValOk_new|exists []; split; reflexivity]|reflexivity].
-  - cbn [build]. destruct k; try discriminate. intros H; injection H as <-. cbn. split; [apply ValOk_new|reflexivity].
+  - cbn [build]. destruct (prim_built k); [|discriminate]. intros H; injection H as <-. cbn. split; [apply ValOk_new|reflexivity].
   - cbn [build]. destruct k; try discriminate; intros H; injection H as <-; cbn [WfB rows length]; (split; [|reflexivity]);
       (split; [apply ValOk_new|split; [discriminate|reflexivity]]).
   - cbn [build]. cbn [FieldIH] in IH. destruct (build cf) as [cb|] eqn:Ec; [|discriminate]. intros H; injection H as <-.
@@ -535,3 +535,7 @@ Proof.
   - destruct valid; [|discriminate]. injection Hs as <-. cbn [some_bitmap apply_validity] in *.
     injection Hd as <-. rewrite map_app. reflexivity.
 Qed.
+
+Lemma prim_value_nonscalar k v :
+  match v with VInt _ _ | VBool _ | VChar _ | VF32 _ | VF64 _ => False | _ => True end -> prim_value k v = Err.
+Proof. destruct k as [i| | | | | |u|u|u tz|u|p sc], v; cbn [prim_value]; intros H; try contradiction; reflexivity. Qed.
